@@ -229,7 +229,22 @@ pub fn lo() -> &'static str {
     })
 }
 
-/// `lo()` with port 0 (bind to any free port).
-pub fn lo0() -> String {
+/// `lo()` with port 0 (bind to any free port on the process-level address; for
+/// listeners whose port alone is handed to another process).
+pub fn lo_base0() -> String {
     format!("{}:0", lo())
+}
+
+/// Bind address (port 0) for the calling thread: the process's /24 with a per-thread
+/// last octet, so that the worker threads of one long run (tens of thousands of
+/// short connections) do not share one address's ephemeral ports either. Everything
+/// else learns the address from the listener (`local_addr`).
+pub fn lo0() -> String {
+    static NEXT: std::sync::atomic::AtomicUsize = std::sync::atomic::AtomicUsize::new(0);
+    thread_local! {
+        static OCTET: usize = 1 + NEXT.fetch_add(1, std::sync::atomic::Ordering::Relaxed) % 250;
+    }
+    let base = lo();
+    let prefix = &base[..base.rfind('.').unwrap_or(base.len())];
+    format!("{prefix}.{}:0", OCTET.with(|o| *o))
 }
